@@ -65,8 +65,8 @@ def gen_check(rng, dtype, neutral=False):
     elif k in ("str_startswith", "str_endswith"):
         a["string"] = rng.choice(["a", "b", "ab", "a.b", "", "é"])
     elif k == "str_length":
-        lo = rng.choice([None, 0, 1, 2])
-        hi = rng.choice([None, 1, 2, 3])
+        lo = rng.choice([None, 0, 0, 1, 2])
+        hi = rng.choice([None, 0, 1, 2, 3])
         if lo is None and hi is None:
             lo = 1
         if lo is not None and hi is not None and lo > hi:
@@ -138,7 +138,7 @@ def gen_spec(rng, *, neutral=False, kind=None, max_cols=4, allow_index=True,
         fs["required"] = rng.random() < 0.7
         cols.insert(rng.randint(0, len(cols)), fs)
     spec = {
-        "kind": "frame", "columns": cols, "index": None,
+        "kind": "frame", "columns": cols, "index": None, "_neutral": neutral,
         "strict": False, "ordered": False, "unique": None,
         "report_duplicates": "all", "unique_column_names": False,
         "add_missing_columns": False, "coerce": False,
@@ -176,6 +176,8 @@ def gen_index(rng):
         dtype = rng.choice(["int64", "str", "datetime", "float64"])
         fs = gen_field(rng, rng.choice(["i%d" % i, "i%d" % i, None]) if n == 1
                        else "i%d" % i, dtype)
+        if n > 1 and rng.random() < 0.4:
+            fs["unique"] = True        # per-level uniqueness vs tuple uniqueness
         levels.append(fs)
     return levels
 
@@ -196,7 +198,7 @@ def gen_values(rng, fs, n):
         sub = rng.sample(ok, min(len(ok), rng.randint(1, 4)))
         vals = [rng.choice(sub) for _ in range(n)]
     if fs["nullable"] and n and rng.random() < 0.6 and fs["dtype"] != "bool" \
-            and fs["dtype"] != "int64":
+            and (fs["dtype"] != "int64" or fs.get("_phys") == "Int64"):
         for _ in range(rng.randint(1, 2)):
             i = rng.randrange(n)
             if fs["unique"] and any(v is None for v in vals):
@@ -205,6 +207,16 @@ def gen_values(rng, fs, n):
                 break
             vals[i] = None
     return vals
+
+
+def phys_for(rng, fs, neutral=False):
+    """Physical dtype for a conforming column: int64 columns are sometimes
+    stored as the nullable extension dtype Int64 (can hold <NA>)."""
+    if fs["dtype"] == "int64" and not neutral and rng.random() < 0.3:
+        fs["_phys"] = "Int64"
+        return "Int64"
+    fs.pop("_phys", None)
+    return PHYS_OF[fs["dtype"]]
 
 
 def gen_table(rng, spec, nrows=None):
@@ -231,8 +243,10 @@ def gen_table(rng, spec, nrows=None):
             continue
         if not fs["required"] and rng.random() < 0.5:
             continue
-        cols.append({"name": fs["name"], "phys": PHYS_OF[fs["dtype"]],
+        ph = phys_for(rng, fs, neutral=spec.get("_neutral", False))
+        cols.append({"name": fs["name"], "phys": ph,
                      "values": gen_values(rng, fs, n)})
+        fs.pop("_phys", None)
     if spec.get("checks") or spec.get("dtype"):
         # conform to the frame-level constraints as well (best effort)
         for fs in spec["columns"]:
@@ -350,7 +364,7 @@ def mutate(rng, spec, table, k=None):
             continue
         if op == "check":
             cands = [(fs, c, w) for fs, c, w in fields if fs["checks"] and c["values"]
-                     and violating(fs) and c["phys"] == PHYS_OF[fs["dtype"]]]
+                     and violating(fs) and c["phys"] in (PHYS_OF[fs["dtype"]], "Int64")]
             if not cands:
                 continue
             fs, c, w = rng.choice(cands)
@@ -360,15 +374,18 @@ def mutate(rng, spec, table, k=None):
             done.append(("check", c["name"], w))
         elif op == "null":
             cands = [(fs, c, w) for fs, c, w in fields if c["values"]
-                     and c["phys"] in ("float64", "object", "datetime")]
+                     and (c["phys"] in ("float64", "object", "datetime", "Int64")
+                          or (c["phys"] == "int64" and w == "column" and not spec.get("_neutral")))]
             if not cands:
                 continue
             fs, c, w = rng.choice(cands)
+            if c["phys"] == "int64":
+                c["phys"] = "Int64"      # nullable extension dtype holding <NA>
             c["values"][rng.randrange(len(c["values"]))] = None
             done.append(("null", c["name"], w))
         elif op == "dup":
             cands = [(fs, c, w) for fs, c, w in fields if len(c["values"]) >= 2
-                     and c["phys"] == PHYS_OF[fs["dtype"]]]
+                     and c["phys"] in (PHYS_OF[fs["dtype"]], "Int64")]
             if not cands:
                 continue
             fs, c, w = rng.choice(cands)
